@@ -121,6 +121,9 @@ class ScriptAgent(Agent):
         w = self.model.world
         uid = event.data["uid"] if isinstance(event.data, dict) else None
         w.handled.append((w.k, self.id, uid, self.state))
+        if uid is not None and uid == getattr(w, "poison_uid", None) and not getattr(w, "poison_fired", False):
+            w.poison_fired = True       # (harness) an injected, transient handler fault
+            raise RuntimeError("handler of event %r fails" % uid)
 
     def handle_events(self, time, sim_round, step):
         self.model.world.calls.append(("handle", self.id, time))
@@ -145,6 +148,14 @@ class ScriptAgent(Agent):
             send(self.model, w, s, self.id)
         for op in w.act_ops.get((w.k, self.id), ()):
             w.apply_op(self.model, op)
+
+
+class BoxAgent(ScriptAgent):
+    """a container-like agent (a warehouse, a queue): it has a length, and it is EMPTY - falsy - unless it is busy.
+    An agent is an agent whatever its truth value."""
+
+    def __len__(self):
+        return 1 if self.state == "busy" else 0
 
 
 class Memo(Event):
@@ -213,7 +224,8 @@ class ScriptModel(Model):
 
     def instantiate_model(self):
         for t in self.TYPES:
-            self.register_agent_factory(t, (lambda tt: (lambda agent_id, model, properties: ScriptAgent(agent_id, model, properties, tt)))(t))
+            cls = BoxAgent if t == "b" else ScriptAgent         # every agent of type "b" is container-like
+            self.register_agent_factory(t, (lambda tt, cls_: (lambda agent_id, model, properties: cls_(agent_id, model, properties, tt)))(t, cls))
         self.register_agent_factory("team", lambda agent_id, model, properties: TeamAgent(agent_id, model, properties, "team"))
         self.register_agent_factory("cap", lambda agent_id, model, properties: CapAgent(agent_id, model, properties, "cap"))
         if isinstance(self.data_collector, LoggingCollector):
